@@ -329,8 +329,16 @@ func (t *T) NonTrivial(key string) {
 	h.Write([]byte(t.Part))
 	h.Write([]byte{0})
 	h.Write([]byte(key))
+	if len(t.w.distinct) >= maxDistinctPerWorker {
+		// memory guard for very long thorough runs: stop recording, i.e. count conservatively
+		t.w.counters["distinct_nontrivial.capped"] = 1
+		return
+	}
 	t.w.distinct[h.Sum64()] = struct{}{}
 }
+
+// maxDistinctPerWorker bounds the memory of the distinct-case bookkeeping (about 50 bytes per entry).
+const maxDistinctPerWorker = 2000000
 
 // Sample keeps a few expanded cases for the evidence file.
 func (t *T) Sample(v any) {
